@@ -94,7 +94,7 @@ def _temporal_tabulate(ctx) -> None:
     dm, tm, zm = pmod("datetime"), pmod("time"), pmod("tz.timezone")
     part = lambda f, *a, **k: minieval.Stub(_partial=(f, a, k))       # noqa: E731
 
-    def rebuild(red):
+    def rebuild(red, ctor=None):
         if not (isinstance(red, tuple) and len(red) >= 2):
             raise core.Unsupported("reduce does not return (callable, args)")
         fn_, args = red[0], tuple(red[1])
@@ -102,6 +102,12 @@ def _temporal_tabulate(ctx) -> None:
         while isinstance(fn_, minieval.Stub) and hasattr(fn_, "_partial"):
             f2, a2, k2 = fn_._partial
             args, kw, fn_ = tuple(a2) + args, {**k2, **kw}, f2
+        if ctor is not None and fn_ is not ctor and callable(fn_) and not isinstance(fn_, minieval.Stub) and any(a is ctor for a in args):
+            # a reconstructor function of the module that is handed the class: run it (interpreted) with a class that records how it is called
+            rec = minieval.ClassStub(_new=lambda *a_, **k_: ("rebuilt", a_, k_), _isa=lambda v: False)
+            out = fn_(*[rec if a is ctor else a for a in args], **kw)
+            if isinstance(out, tuple) and len(out) == 3 and out[0] == "rebuilt":
+                return ctor, tuple(out[1]), dict(out[2])
         return fn_, args, kw
     # DateTime
     bad, n = [], 0
@@ -125,7 +131,7 @@ def _temporal_tabulate(ctx) -> None:
                         label = f"DateTime({wall.isoformat(' ')}, fold={fold}, {'aware' if zone is None else 'foreign tzinfo' if zone is foreign else 'naive'}).{meth}"
                         got = w.call(x, meth, list(args))
                         if meth != "__deepcopy__":
-                            fn_, a, kw = rebuild(got)
+                            fn_, a, kw = rebuild(got, w.ctor)
                             if fn_ is not w.ctor:
                                 bad.append(f"{label}: the callable is not the instance's class")
                                 continue
@@ -163,7 +169,7 @@ def _temporal_tabulate(ctx) -> None:
                             continue
                         n += 1
                         label = f"Time({t}, fold={fold}, tzinfo={'set' if tzinfo else None}).{meth}"
-                        fn_, a, kw = rebuild(tw.call(x, meth, list(args)))
+                        fn_, a, kw = rebuild(tw.call(x, meth, list(args)), tw.ctor)
                         if fn_ is not tw.ctor:
                             bad.append(f"{label}: the callable is not the instance's class")
                             continue
